@@ -181,11 +181,11 @@ class GPSData(BytesInterface):
             # speed field is 3 characters: x.y below 10 knots, whole knots from 10 up
             + (
                 "\0" * 3
-                if self.speed_knots <= 0
+                if round(self.speed_knots, 1) <= 0
                 else (
                     f"{self.speed_knots:.1f}"
                     if round(self.speed_knots, 1) < 10
-                    else f"{round(self.speed_knots):03d}"
+                    else f"{min(round(self.speed_knots), 999):03d}"
                 )
             )
             + ("\0" * 3 if not self.direction else f"{self.direction:03}")
